@@ -11,7 +11,14 @@ import (
 	"time"
 )
 
-const repoDir = "/repo"
+// repoDir: the tree under test. VERIF_REPO_DEV overrides it for development runs
+// against a clean export while /repo is busy (registered commands never set it).
+var repoDir = func() string {
+	if d := os.Getenv("VERIF_REPO_DEV"); d != "" {
+		return d
+	}
+	return "/repo"
+}()
 const verifDir = "/verif"
 
 type GenFlags struct {
